@@ -23,6 +23,18 @@ type Def struct {
 	Dep *File `json:"dep,omitempty"`
 	// Param is the plugin parameter: "", "paths=source_relative" or "dev=true".
 	Param string `json:"param,omitempty"`
+	// DepBase, if set, is the last element of the Go import path of the imported user
+	// package (e.g. "encoding": the name of a package the generated code imports itself).
+	DepBase string `json:"dep_base,omitempty"`
+}
+
+// DepDir is the directory (below the scratch module) and import path suffix of the imported
+// user package of a definition generated into package pkg.
+func DepDir(pkg string, d Def) string {
+	if d.DepBase != "" {
+		return pkg + "dep/" + d.DepBase
+	}
+	return pkg + "dep"
 }
 
 // EmptyType is the fully qualified name of google.protobuf.Empty.
@@ -88,6 +100,9 @@ var (
 	derivedTypePrefixes = []string{"Async", "Correctable", "CorrectableStream", "internal", "Internal", "Register"}
 	hostilePackages     = []string{"", "type", "gorums", "Nodes", "google.protobuf", "func.var", "_"}
 )
+
+// depBases are last elements of Go import paths that the generated code uses itself.
+var depBases = []string{"encoding", "fmt", "gorums", "context", "grpc", "proto", "protoimpl", "codes", "status", "ordering", "sync", "time", "emptypb"}
 
 // methodComments are leading comments of rpcs.
 var methodComments = []string{
@@ -336,6 +351,10 @@ func GenDef(t *rapid.T, o GenOpts) Def {
 	case p >= 5:
 		d.Param = "paths=source_relative"
 	}
+	// the imported user package often is called like a package the generated code imports itself
+	if d.Dep != nil && !o.LegalOnly && d.DepBase == "" && rapid.IntRange(0, 2).Draw(t, "depBaseHostile") == 0 {
+		d.DepBase = rapid.SampledFrom(depBases).Draw(t, "depBase")
+	}
 	// leading comments of rpcs (copied into the generated stubs): ordinary and awkward texts
 	for si := range d.File.Services {
 		for mi := range d.File.Services[si].Methods {
@@ -433,7 +452,7 @@ func corrupt(t *rapid.T, d *Def, _ []typeRef, usedTypes map[string]bool, lbl str
 			meths = append(meths, &f.Services[si].Methods[mi])
 		}
 	}
-	kinds := []string{"calltypes", "calltypes", "option", "option", "stream", "custom", "rpcopt", "falseopt",
+	kinds := []string{"calltypes", "calltypes", "option", "option", "stream", "custom", "rpcopt", "falseopt", "depbase",
 		"methname", "methname", "msgname", "msgname", "svcname", "package", "svc2"}
 	kind := rapid.SampledFrom(kinds).Draw(t, lbl+"kind")
 	var m *Method
@@ -469,6 +488,12 @@ func corrupt(t *rapid.T, d *Def, _ []typeRef, usedTypes map[string]bool, lbl str
 				}
 			}
 		}
+	case "depbase":
+		// the imported user package is called like a package the generated code imports itself
+		if d.Dep == nil {
+			return
+		}
+		d.DepBase = rapid.SampledFrom(depBases).Draw(t, lbl+"depBase")
 	case "falseopt":
 		// one or two boolean options that are not set are written out as "= false"
 		if m == nil {
